@@ -173,6 +173,25 @@ Proof.
 Qed.
 Print Assumptions c07_refuse_fields.
 
+(* protobuf bodies: SetBody keeps the message, its wire form is proto.Marshal's bytes; sent
+   without the error flag through either codec and decoded by a registered type that accepts
+   the bytes it is the same message again; Reply answers under the id registered for the ack's
+   type (the request's own command when none is) *)
+Theorem c07_proto : forall o m,
+  set_body o (GProto m) = BProto m /\ body_to_bytes (BProto m) = m /\
+  (forall p, pbody p = BProto m -> has_flag (flg p) root_PFlagError = false ->
+     decode true true (v1_result p) = Some (with_body (v1_result p) (BProto m)) /\
+     decode true true (v2_result p) = Some (with_body (v2_result p) (BProto m))) /\
+  (forall mid p e q, reply mid p (BProto m) = Some (e, q) ->
+     endpoint p = Some e /\ cmd q = (if mid =? 0 then cmd p else mid) /\ seq q = seq p /\ typ q = typ p /\
+     node q = node p /\ refers q = refers p /\ pbody q = BProto m).
+Proof.
+  intros o m. split; [reflexivity|]. split; [reflexivity|]. split.
+  - intros p Hb Hf. split; [exact (decode_after_v1 p m Hb Hf)|exact (decode_after_v2 p m Hb Hf)].
+  - intros mid p e q; exact (reply_registry_fields mid p (BProto m) e q).
+Qed.
+Print Assumptions c07_proto.
+
 (* non-vacuity: the coders the correspondence check runs the model with satisfy coders_ok, a clean flag with other bits set exists, and
    an error code really crosses both model codecs with compression and cipher switched on *)
 Example c07_example :
